@@ -231,6 +231,27 @@ def scenario(name):
                 if rc != 2: return False, f"stylua.toml with {nm} ({toml!r}) was accepted: exit {rc}"
                 if open(os.path.join(sub, "x.lua"), "rb").read() != src: return False, f"stylua.toml with {nm}: the file was modified"
             return True, ""
+        if name == "range_options":
+            # C09 from the command line: --range-start / --range-end, each alone and both, on stdin and on a file; a statement that lies
+            # outside the range comes out byte for byte, the one inside is formatted
+            a, b, c = b"local first   =   1\n", b"local second   =   { 1,2,3 }\n", b"local last   =   { 4,5,6 }\n"
+            src = a + b + c
+            fb = b"local second = { 1, 2, 3 }\n"
+            s0, s1 = len(a), len(a) + len(b) - 1       # byte range of the middle statement
+            cases = [(["--range-start", str(s0), "--range-end", str(s1)], [a, c], "both bounds"),
+                     (["--range-start", str(s0)], [a], "--range-start alone (open end)"),
+                     (["--range-end", str(s1)], [c], "--range-end alone (open start)")]
+            for flags, untouched, what in cases:
+                rc, out, err = run(flags + ["-"], d, stdin=src)
+                if rc != 0: return False, f"{what}: exit {rc}: {err[:160]!r}"
+                for u in untouched:
+                    if u not in out: return False, f"{what}: a statement outside the range was rewritten: {u!r} not in the output {out!r}"
+                if fb not in out: return False, f"{what}: the statement inside the range was not formatted: {out!r}"
+                w("r.lua", src)
+                rc, o2, err = run(flags + ["r.lua"], d)
+                if rc != 0: return False, f"{what} on a file: exit {rc}"
+                if r("r.lua") != out: return False, f"{what}: file mode and stdin mode disagree"
+            return True, ""
         raise KeyError(name)
     finally:
         shutil.rmtree(d, ignore_errors=True)
